@@ -19,6 +19,7 @@ import (
 	"strconv"
 	"strings"
 	"sync"
+	"syscall"
 	"time"
 
 	"github.com/whatap/golib/zzverif/simrt"
@@ -159,7 +160,15 @@ func main() {
 
 // ---------------------------------------------------------------- worker
 
+// addressSpaceLimit (bytes) per property: hostile length fields must not be able to take
+// the whole machine down; beyond the limit the Go runtime dies with "out of memory", which
+// the master attributes to the run in progress.
+var addressSpaceLimit = map[string]uint64{}
+
 func runWorker(scs []*Scenario, base uint64, from, step int, tc tierCfg, wantHashes bool, scratch string) {
+	if lim := addressSpaceLimit[scs[0].Prop]; lim > 0 && !simrt.RaceBuild {
+		syscall.Setrlimit(syscall.RLIMIT_AS, &syscall.Rlimit{Cur: lim, Max: lim})
+	}
 	if simrt.RaceBuild {
 		if lp := os.Getenv("SIMRUN_RACELOG"); lp != "" {
 			raceLogPath = lp + "." + strconv.Itoa(os.Getpid())
@@ -176,6 +185,9 @@ func runWorker(scs []*Scenario, base uint64, from, step int, tc tierCfg, wantHas
 			break
 		}
 		sc, cell := pickScenario(scs, i)
+		// progress marker: if the process dies inside this run (unrecoverable runtime error in
+		// the code under test), the master attributes the death to it
+		os.WriteFile(filepath.Join(scratch, fmt.Sprintf("prog-%d.txt", from%step)), []byte(fmt.Sprintf("%d %d %s %d", i, seedOf(base, i), sc.Name, cell)), 0644)
 		rep := runOne(sc, seedOf(base, i), nil, false, cell)
 		sum.Runs++
 		sum.Steps += rep.Steps
@@ -340,27 +352,79 @@ func spawnWorkers(prop, tier string, seed uint64, workers int, tc tierCfg, scrat
 			if only != "" {
 				args = append(args, "-scenario", only)
 			}
-			cmd := exec.Command(exe, args...)
-			cmd.Env = append(os.Environ(), "SIMRUN_RACELOG="+filepath.Join(scratch, "race"),
-				"GORACE=log_path="+filepath.Join(scratch, "race")+" halt_on_error=0 exitcode=0 history_size=2")
-			if gomaxprocs > 0 {
-				cmd.Env = append(cmd.Env, "GOMAXPROCS="+strconv.Itoa(gomaxprocs))
-			}
-			var out, eb bytes.Buffer
-			cmd.Stdout = &out
-			cmd.Stderr = &eb
-			err := cmd.Run()
-			if err != nil {
-				errs[k] = fmt.Errorf("worker %d: %v\nstdout tail: %s\nstderr tail: %s", k, err, tail(out.String(), 2000), tail(eb.String(), 6000))
+			from := k
+			var acc *workerSummary
+			for attempt := 0; ; attempt++ {
+				for ai := range args {
+					if args[ai] == "-from" {
+						args[ai+1] = strconv.Itoa(from)
+					}
+				}
+				cmd := exec.Command(exe, args...)
+				cmd.Env = append(os.Environ(), "SIMRUN_RACELOG="+filepath.Join(scratch, "race"),
+					"GORACE=log_path="+filepath.Join(scratch, "race")+" halt_on_error=0 exitcode=0 history_size=2")
+				if gomaxprocs > 0 {
+					cmd.Env = append(cmd.Env, "GOMAXPROCS="+strconv.Itoa(gomaxprocs))
+				}
+				var out, eb bytes.Buffer
+				cmd.Stdout = &out
+				cmd.Stderr = &eb
+				err := cmd.Run()
+				if err != nil {
+					es := eb.String()
+					death := ""
+					for _, marker := range []string{"fatal error: out of memory", "fatal error: runtime: out of memory", "cannot allocate memory", "fatal error: concurrent map", "fatal error: stack overflow", "goroutine stack exceeds", "signal: killed"} {
+						if strings.Contains(es, marker) || strings.Contains(err.Error(), marker) {
+							death = marker
+							break
+						}
+					}
+					pb, perr := os.ReadFile(filepath.Join(scratch, fmt.Sprintf("prog-%d.txt", k)))
+					var pi, pcell int
+					var pseed uint64
+					var pscen string
+					if perr == nil {
+						fmt.Sscanf(string(pb), "%d %d %s %d", &pi, &pseed, &pscen, &pcell)
+					}
+					if death == "" || perr != nil || attempt >= 60 {
+						errs[k] = fmt.Errorf("worker %d: %v\nstdout tail: %s\nstderr head: %s\nstderr tail: %s", k, err, tail(out.String(), 2000), head(es, 3000), tail(es, 3000))
+						return
+					}
+					// the code under test killed the process: that is a violation of the run in progress
+					if acc == nil {
+						acc = &workerSummary{Faults: map[string]int{}, Probes: map[string]int{}, Policies: map[string]int{}, Scenarios: map[string]int{}, ViolCount: map[string]int{}}
+					}
+					sig := "process-death:" + pscen
+					acc.ViolCount[sig]++
+					acc.Runs++
+					if acc.ViolCount[sig] == 1 {
+						acc.Viols = append(acc.Viols, &RunReport{Scenario: pscen, Cell: pcell, Seed: pseed, Gen: true, Tape: simrt.Tape{Seed: pseed},
+							Viols: []*Violation{{prop, "process-death", sig, "the worker process died with an unrecoverable runtime error while executing this run (" + death + "):\n" + head(es, 2500)}}})
+					}
+					from = pi + workers
+					if from >= tc.Runs {
+						sums[k] = acc
+						return
+					}
+					continue
+				}
+				lines := strings.Split(strings.TrimSpace(out.String()), "\n")
+				s := &workerSummary{}
+				if err := json.Unmarshal([]byte(lines[len(lines)-1]), s); err != nil {
+					errs[k] = fmt.Errorf("worker %d: bad summary: %v: %s", k, err, tail(out.String(), 500))
+					return
+				}
+				if acc != nil {
+					// merge what earlier (dead) incarnations of this worker reported
+					s.Runs += acc.Runs
+					for sg, n := range acc.ViolCount {
+						s.ViolCount[sg] += n
+					}
+					s.Viols = append(s.Viols, acc.Viols...)
+				}
+				sums[k] = s
 				return
 			}
-			lines := strings.Split(strings.TrimSpace(out.String()), "\n")
-			s := &workerSummary{}
-			if err := json.Unmarshal([]byte(lines[len(lines)-1]), s); err != nil {
-				errs[k] = fmt.Errorf("worker %d: bad summary: %v: %s", k, err, tail(out.String(), 500))
-				return
-			}
-			sums[k] = s
 		}(k)
 	}
 	wg.Wait()
@@ -370,6 +434,13 @@ func spawnWorkers(prop, tier string, seed uint64, workers int, tc tierCfg, scrat
 		}
 	}
 	return sums, nil
+}
+
+func head(s string, n int) string {
+	if len(s) > n {
+		return s[:n]
+	}
+	return s
 }
 
 func tail(s string, n int) string {
@@ -627,6 +698,7 @@ type replayFile struct {
 	Scenario  string      `json:"scenario"`
 	Seed      uint64      `json:"seed"`
 	Cell      int         `json:"cell"`
+	Gen       bool        `json:"gen,omitempty"`
 	Tape      simrt.Tape  `json:"tape"`
 	Violation *Violation  `json:"violation"`
 	Trace     []string    `json:"trace,omitempty"`
@@ -655,7 +727,14 @@ func doReplay(path string, asJSON bool) int {
 		}
 	}
 	tape := rf.Tape
-	rep := runOne(sc, rf.Seed, &tape, true, rf.Cell)
+	tp := &tape
+	if rf.Gen {
+		tp = nil // regenerate the run from its seed
+	}
+	if lim := addressSpaceLimit[rf.Property]; lim > 0 && !simrt.RaceBuild {
+		syscall.Setrlimit(syscall.RLIMIT_AS, &syscall.Rlimit{Cur: lim, Max: lim})
+	}
+	rep := runOne(sc, rf.Seed, tp, true, rf.Cell)
 	if asJSON {
 		js, _ := json.Marshal(rep)
 		fmt.Println(string(js))
@@ -736,6 +815,28 @@ func hasSig(rep *RunReport, sig string) *Violation {
 // replay file and verifies that it reproduces in a fresh process.
 func minimiseAndWrite(prop string, r *RunReport, replays, scratch string) (string, int) {
 	sig := r.Viols[0].Sig
+	if r.Gen {
+		// process death: no tape was recorded. The replay file regenerates the run from its
+		// seed; reproduction = the fresh replay process dies the same way.
+		rf := &replayFile{Property: prop, Scenario: r.Scenario, Cell: r.Cell, Gen: true, Seed: r.Seed, Tape: simrt.Tape{Seed: r.Seed}, Violation: r.Viols[0],
+			RaceBuild: simrt.RaceBuild, Note: "process death: replay regenerates the run from its seed; expect the replay process itself to die with the same runtime error"}
+		b, _ := json.MarshalIndent(rf, "", " ")
+		path := filepath.Join(replays, fmt.Sprintf("%s-%d.json", prop, r.Seed))
+		if err := os.WriteFile(path, b, 0644); err != nil {
+			fmt.Fprintln(os.Stderr, "simrun:", err)
+			return "", 2
+		}
+		exe, _ := os.Executable()
+		cmd := exec.Command(exe, "-replay", path, "-json")
+		var eb bytes.Buffer
+		cmd.Stderr = &eb
+		err := cmd.Run()
+		if err == nil || !strings.Contains(eb.String(), "fatal error") {
+			fmt.Fprintf(os.Stderr, "simrun: machinery error: process death of seed %d did not reproduce in a fresh process (%v)\n", r.Seed, err)
+			return "", 2
+		}
+		return path, 1
+	}
 	best := r.Tape
 	// first: confirm in a fresh process with the recorded tape
 	rep0, err := replayInFresh(prop, r.Scenario, r.Cell, r.Seed, &best, scratch, 0)
